@@ -43,6 +43,23 @@ func vCatalogCheck(h *verifh.H, hub *VHub, names map[string]map[string]bool, gon
 			pubs[name] = vRenderNs(e.Properties[info.PublicNamespacesKey])
 		}
 	}
+	remote := map[string]string{}
+	for _, e := range res.Entities {
+		name, _ := e.Properties[info.NameKey].(string)
+		if !e.IsDeleted {
+			remote[name], _ = e.Properties[info.DatasetPrefix+":remoteUrl"].(string)
+		}
+	}
+	for n := range names {
+		// ... and its proxy setting: the catalogue says proxy (with this remote) iff the dataset is one
+		if d := hub.Dsm.GetDataset(n); d != nil {
+			have := ""
+			if d.IsProxy() && d.ProxyConfig != nil {
+				have = d.ProxyConfig.RemoteURL
+			}
+			h.Assert(remote[n] == have, "the live meta-entity carries the dataset's proxy setting :: "+when+" name="+n+" meta="+remote[n]+" dataset="+have)
+		}
+	}
 	for n := range names {
 		// the meta-entity carries the dataset's public-namespace setting: what the catalogue says is
 		// what the dataset object (and, after a restart, the stored dataset record) says
@@ -93,6 +110,14 @@ func VerifC19Catalog(h *verifh.H) {
 	_, err = hub.Dsm.CreateDataset("b", nil)
 	h.Assert(err == nil, "create b")
 	names := map[string]map[string]bool{nameA: {}, "b": {}}
+	proxyName := ""
+	if h.Param("proxy", 0) == 1 {
+		// a proxy dataset (its entities live on a remote data layer; the catalogue carries its settings)
+		_, err = hub.Dsm.CreateDataset("px", &CreateDatasetConfig{ProxyDatasetConfig: &ProxyDatasetConfig{RemoteURL: "http://remote.example/datasets/r"}})
+		h.Assert(err == nil, "create proxy dataset")
+		names["px"] = map[string]bool{}
+		proxyName = "px"
+	}
 	gone := map[string]bool{}
 	pool := []string{"ns0:e1", "ns0:e2", "ns0:e3"}
 	mk := func(id string, tag string) *Entity {
@@ -104,9 +129,15 @@ func VerifC19Catalog(h *verifh.H) {
 	vCatalogCheck(h, hub, names, gone, "initial")
 	nops := h.Param("ops", 2)
 	for k := 0; k < nops; k++ {
-		op := h.Choice("op", 7+h.Param("mirror", 0)+h.Param("nsBatch", 0))
+		op := 0
+		if h.Param("proxy", 0) != 1 {
+			op = h.Choice("op", 7+h.Param("mirror", 0)+h.Param("nsBatch", 0))
+		}
 		if h.Param("nsBatch", 0) == 1 && h.Param("mirror", 0) == 0 && op == 7 {
 			op = 8
+		}
+		if h.Param("proxy", 0) == 1 {
+			op = []int{3, 4, 5, 6, 9}[h.Choice("pop", 5)] // delete, rename, re-create, restart, rename the proxy dataset
 		}
 		if h.Param("lifecycleOnly", 0) == 1 {
 			h.Assume(op == 3 || op == 4 || op == 5 || op == 6 || op == 8) // delete, rename, re-create, restart, catalogue batch
@@ -206,6 +237,16 @@ func VerifC19Catalog(h *verifh.H) {
 				}
 			}
 			h.Assert(hub.Dsm.GetDataset("core.Dataset").StoreEntities(append(tomb, lives...)) == nil, "catalogue batch accepted")
+		case 9: // the proxy dataset is renamed
+			if proxyName != "px" {
+				h.Assume(false)
+			}
+			_, err := hub.Dsm.UpdateDataset("px", &UpdateDatasetConfig{ID: "px2"})
+			h.Assert(err == nil, "rename of the proxy dataset accepted")
+			names["px2"] = names["px"]
+			delete(names, "px")
+			gone["px"] = true
+			proxyName = "px2"
 		case 5: // re-create
 			if cur != "" {
 				h.Assume(false)
